@@ -58,7 +58,7 @@ func init() {
 		Kinds: []string{
 			"vault.create", "vault.create",
 			"vault.auth", "vault.auth", "vault.auth", "vault.auth", "vault.auth", "vault.auth", "vault.auth", "vault.auth", "vault.auth",
-			"vault.cancel",
+			"vault.cancel", "vault.cancel",
 			"vault.fund", "vault.fund", "vault.fund",
 			"vault.withdraw", "vault.withdraw", "vault.withdraw", "vault.withdraw",
 			"appjunk", "appjunk",
@@ -68,7 +68,7 @@ func init() {
 			// Funded genesis vaults (single- and multi-signature authorities, withdraw policies), so
 			// that actions are authorised and executed from the first block on; small distinct gas
 			// costs so that the vault methods fit below a small MaxBlockGas.
-			k.Gen.Vaults = r.Range(1, 3)
+			k.Gen.Vaults = r.Range(2, 3)
 			k.Gen.VaultGas = k.Gen.GasBase + 40
 		},
 	})
@@ -83,8 +83,9 @@ func vaultGenesisID(i int) uint64 { return 1<<32 + uint64(i) }
 
 // addGenesisVaults puts k.Vaults funded vaults into the genesis document (called by BuildWorld
 // before the total supply is fixed; add accounts for the vault balances). Vault i is created by
-// signer i; the admin authorities are 1-of-1, 2-of-2, 1-of-3, ... so that both immediately executed
-// and multi-step authorisations occur; signer i+2 has a withdraw policy.
+// signer i; the admin authorities are 1-of-1, 2-of-2, 2-of-3, ... so that both immediately executed
+// and multi-step authorisations occur; the suspend authority is a non-admin; signer i+2 has a
+// withdraw policy.
 func addGenesisVaults(w *World, doc *genesis.Document, st *staking.Genesis, add func(uint64)) {
 	k := w.K
 	params := vault.DefaultConsensusParameters
@@ -107,8 +108,8 @@ func addGenesisVaults(w *World, doc *genesis.Document, st *staking.Genesis, add 
 			Creator:          w.Addr(i),
 			ID:               vaultGenesisID(i),
 			State:            vault.StateActive,
-			AdminAuthority:   vault.Authority{Addresses: adm, Threshold: uint8(min(nAdm, 1+i%2))},
-			SuspendAuthority: vault.Authority{Addresses: []staking.Address{w.Addr(i + 1)}, Threshold: 1},
+			AdminAuthority:   vault.Authority{Addresses: adm, Threshold: uint8(min(nAdm, []int{1, 2, 2}[i%3]))},
+			SuspendAuthority: vault.Authority{Addresses: []staking.Address{w.Addr(i + 3)}, Threshold: 1}, // (not an admin member)
 		}
 		addr := vlt.Address()
 		bal := uint64(5000*(i+1)) + k.MinTransact
@@ -186,6 +187,16 @@ func vaultMember(w *World, rr *core.Rand, auths []*vault.Authority, exclude []st
 		return nil
 	}
 	return w.Signer(cand[rr.Intn(len(cand))])
+}
+
+// vaultWrongMember picks a world signer that is a member of one of the vault's authorities but of
+// none of the authorities entitled to the action (e.g. a suspend-only member and an admin action).
+func vaultWrongMember(w *World, rr *core.Rand, vlt *vault.Vault, entitled []*vault.Authority) signature.Signer {
+	var exclude []staking.Address
+	for _, a := range entitled {
+		exclude = append(exclude, a.Addresses...)
+	}
+	return vaultMember(w, rr, vlt.Authorities(), exclude)
 }
 
 // vaultOutsider picks a world signer that is in none of the authorities.
@@ -411,9 +422,13 @@ func buildVaultAuth(w *World, op TxOp, v TxView, def signature.Signer, fee *tran
 	}
 	auths := action.Authorities(vlt)
 	var signer signature.Signer
-	if rr.Chance(1, 8) {
+	switch rr.Intn(8) {
+	case 0:
 		signer = vaultOutsider(w, rr, vlt.Authorities())
-	} else {
+	case 1:
+		signer = vaultWrongMember(w, rr, vlt, auths)
+	}
+	if signer == nil {
 		signer = vaultMember(w, rr, auths, exclude)
 	}
 	if signer == nil {
@@ -449,14 +464,21 @@ func buildVaultCancel(w *World, op TxOp, v TxView, def signature.Signer, fee *tr
 		return vault.NewCancelActionTx(c17Nonce(v, op, def), fee, &vault.CancelAction{Vault: vaultNoSuch(w, op)}), def, nil
 	}
 	auths := vlt.Authorities()
-	if pending, err := vaultState.NewImmutableState(v.Tree()).PendingAction(context.Background(), vlt.Address(), vlt.Nonce); err == nil && pending != nil && rr.Chance(3, 4) {
-		auths = pending.Action.Authorities(vlt) // (else possibly a member of the wrong authority)
-	}
 	var signer signature.Signer
-	if rr.Chance(1, 8) {
-		signer = vaultOutsider(w, rr, vlt.Authorities())
-	} else {
-		signer = vaultMember(w, rr, auths, nil)
+	if pending, err := vaultState.NewImmutableState(v.Tree()).PendingAction(context.Background(), vlt.Address(), vlt.Nonce); err == nil && pending != nil {
+		auths = pending.Action.Authorities(vlt)
+		if rr.Chance(1, 4) {
+			// A member of the vault's authorities that is not entitled to this action: passes the first
+			// (vault-wide) check and is refused by the action-specific one.
+			signer = vaultWrongMember(w, rr, vlt, auths)
+		}
+	}
+	if signer == nil {
+		if rr.Chance(1, 8) {
+			signer = vaultOutsider(w, rr, vlt.Authorities())
+		} else {
+			signer = vaultMember(w, rr, auths, nil)
+		}
 	}
 	if signer == nil {
 		signer = def
